@@ -548,7 +548,7 @@ func ruleMembership(p *Program, r *Reporter) {
 
 // evalLogicClause interprets a clause body with left.True()=l, right.True()=r
 // and returns the pushed singleton ("true"/"false"), "" if undecidable.
-func evalLogicClause(info *types.Info, truth map[types.Object]string, body []ast.Stmt, l, rr bool) string {
+func evalLogicClause(info *types.Info, truth map[types.Object]string, body []ast.Stmt, left, right types.Object, l, rr bool) string {
 	var evalCond func(e ast.Expr) (bool, bool)
 	evalCond = func(e ast.Expr) (bool, bool) {
 		e = ast.Unparen(e)
@@ -572,11 +572,11 @@ func evalLogicClause(info *types.Info, truth map[types.Object]string, body []ast
 		case *ast.CallExpr:
 			if sel, ok := x.Fun.(*ast.SelectorExpr); ok && sel.Sel.Name == "True" {
 				if id, ok := sel.X.(*ast.Ident); ok {
-					switch id.Name {
-					case "left":
-						return l, true
-					case "right":
-						return rr, true
+					switch info.Uses[id] {
+					case left:
+						return l, left != nil
+					case right:
+						return rr, right != nil
 					}
 				}
 			}
@@ -637,8 +637,29 @@ func ruleLogicCells(p *Program, r *Reporter) {
 	fd := p.FuncDecl(a.binop)
 	info := p.Info(a.binop)
 	truth := singletonNames(p)
-	// the parameter names the clauses use must be the dispatcher's operands:
-	// locals named left/right popped in that order (right first)
+	// the dispatcher's operands, by role: the operand popped first is the right
+	// one (it was pushed last), the operand popped second the left one
+	var popped []types.Object
+	ast.Inspect(fd.Body, func(n ast.Node) bool {
+		as, ok := n.(*ast.AssignStmt)
+		if !ok || len(as.Rhs) != 1 || len(as.Lhs) < 1 {
+			return true
+		}
+		if ce, ok := as.Rhs[0].(*ast.CallExpr); ok {
+			if f, ok := calleeObj(info, ce).(*types.Func); ok && f.Name() == "Pop" {
+				if id, ok := as.Lhs[0].(*ast.Ident); ok {
+					if o := info.ObjectOf(id); o != nil {
+						popped = append(popped, o)
+					}
+				}
+			}
+		}
+		return true
+	})
+	var leftObj, rightObj types.Object
+	if len(popped) >= 2 {
+		rightObj, leftObj = popped[0], popped[1]
+	}
 	clauses := map[string]*ast.CaseClause{}
 	ast.Inspect(fd.Body, func(n ast.Node) bool {
 		cl, ok := n.(*ast.CaseClause)
@@ -666,7 +687,7 @@ func ruleLogicCells(p *Program, r *Reporter) {
 		undec := false
 		for _, l := range []bool{false, true} {
 			for _, rr := range []bool{false, true} {
-				got := evalLogicClause(info, truth, cl.Body, l, rr)
+				got := evalLogicClause(info, truth, cl.Body, leftObj, rightObj, l, rr)
 				want := fmt.Sprint(spec.f(l, rr))
 				if got == "" {
 					undec = true
@@ -684,41 +705,33 @@ func ruleLogicCells(p *Program, r *Reporter) {
 			r.OkNT(key, p.Pos(cl.Pos()), "all four combinations of left.True()/right.True() agree")
 		}
 	}
-	// operand order: right is popped first, then left
-	var pops []string
-	for _, b := range a.binop.Blocks {
-		for _, ins := range b.Instrs {
-			if st, ok := ins.(*ssa.Store); ok {
-				if ex, ok := st.Val.(*ssa.Extract); ok && ex.Index == 0 {
-					if c, ok := ex.Tuple.(*ssa.Call); ok && c.Call.StaticCallee() != nil && c.Call.StaticCallee().Name() == "Pop" {
-						if al, ok := st.Addr.(*ssa.Alloc); ok {
-							pops = append(pops, al.Comment)
-						}
-					}
-				}
-			}
+	// operand order: the operator tables receive the operand popped second as
+	// their left and the operand popped first as their right argument
+	tables := map[types.Object]bool{}
+	for _, t := range a.optTables {
+		if t.Object() != nil {
+			tables[t.Object()] = true
 		}
 	}
-	if len(pops) == 0 {
-		// not spilled: find by debug names through the AST instead
-		var order []string
-		ast.Inspect(fd.Body, func(n ast.Node) bool {
-			as, ok := n.(*ast.AssignStmt)
-			if !ok || len(as.Rhs) != 1 {
-				return true
-			}
-			if ce, ok := as.Rhs[0].(*ast.CallExpr); ok {
-				if f, ok := calleeObj(info, ce).(*types.Func); ok && f.Name() == "Pop" {
-					if id, ok := as.Lhs[0].(*ast.Ident); ok {
-						order = append(order, id.Name)
-					}
-				}
-			}
+	calls, bad := 0, ""
+	ast.Inspect(fd.Body, func(n ast.Node) bool {
+		ce, ok := n.(*ast.CallExpr)
+		if !ok {
 			return true
-		})
-		pops = order
-	}
-	r.Check(len(pops) >= 2 && pops[0] == "right" && pops[1] == "left", "binary operands are popped right then left", p.Pos(fd.Pos()), strings.Join(pops, ", "), "the dispatcher does not pop the right operand first and the left operand second (popped: "+strings.Join(pops, ", ")+"): every binary operator would see its operands swapped")
+		}
+		f, ok := calleeObj(info, ce).(*types.Func)
+		if !ok || !tables[f] || len(ce.Args) != 3 {
+			return true
+		}
+		calls++
+		l, okL := ast.Unparen(ce.Args[1]).(*ast.Ident)
+		rr, okR := ast.Unparen(ce.Args[2]).(*ast.Ident)
+		if !okL || !okR || info.Uses[l] != leftObj || info.Uses[rr] != rightObj || leftObj == nil {
+			bad = exprStr(ce)
+		}
+		return true
+	})
+	r.Check(len(popped) >= 2 && calls > 0 && bad == "", "binary operands are popped right then left", p.Pos(fd.Pos()), fmt.Sprintf("the operand popped second is the left argument of all %d operator-table calls, the operand popped first the right one", calls), "the dispatcher does not hand the operand popped first (pushed last) to the operator tables as the right operand and the one popped second as the left ("+bad+"): every binary operator would see its operands swapped")
 }
 
 // ---------------------------------------------------------------------------
@@ -737,6 +750,7 @@ func ruleIterNext(p *Program, r *Reporter) {
 		n++
 		key := "iteration step of object." + tn
 		fd := p.FuncDecl(fn)
+		info := p.Info(fn)
 		// shape: if recv.offset < LEN { … recv.offset++ … return X, IDX, true }; return nil, _, false
 		var guard *ast.IfStmt
 		for _, st := range fd.Body.List {
@@ -749,9 +763,14 @@ func ruleIterNext(p *Program, r *Reporter) {
 			continue
 		}
 		be, ok := ast.Unparen(guard.Cond).(*ast.BinaryExpr)
+		// the iteration cursor: the int field of the iterable value type
 		isCursor := func(e ast.Expr) bool {
 			sel, ok := ast.Unparen(e).(*ast.SelectorExpr)
-			return ok && sel.Sel.Name == "offset"
+			if !ok {
+				return false
+			}
+			s, ok := info.Selections[sel]
+			return ok && s.Kind() == types.FieldVal && isBasicKind(types.Int)(s.Obj().Type()) && objectStructName(s.Recv()) != ""
 		}
 		if !ok || be.Op != token.LSS || !isCursor(be.X) {
 			r.Fail(key, p.Pos(guard.Pos()), "the step is not guarded by cursor < length ("+exprStr(guard.Cond)+"): the last element is skipped or the step runs past the end")
@@ -786,9 +805,10 @@ func ruleIterNext(p *Program, r *Reporter) {
 		ast.Inspect(guard.Body, func(m ast.Node) bool {
 			switch x := m.(type) {
 			case *ast.IndexExpr:
-				s := strings.ReplaceAll(exprStr(x.Index), " ", "")
-				if strings.HasSuffix(s, "offset-1") {
-					idxOK = true
+				if be, ok := ast.Unparen(x.Index).(*ast.BinaryExpr); ok && be.Op == token.SUB && isCursor(be.X) {
+					if tv, ok := info.Types[be.Y]; ok && tv.Value != nil && tv.Value.String() == "1" {
+						idxOK = true
+					}
 				}
 			case *ast.BinaryExpr:
 				// hash: `h.offset == idx` selects the entry
